@@ -43,8 +43,10 @@ def run(ctx):
     cases += [dict(je.gen_large_slack_case(ctx.rng, share=0), kind=PID.lower()) for _ in range(ctx.n(10, 120))]
     # (n_jobs+1)^limit >= 2^63: long operations (all basis states) and unit operations (selected states, exact energies)
     cases += [dict(je.gen_huge_limit_case(ctx.rng, share=0, kind=k), kind=PID.lower()) for k in ["long", "long", "unit"] * ctx.n(1, 12)]
+    je.assign_objects(ctx.rng, cases)
     for c in cases:
         summ = je.examiner(c)(ctx, batch, c, WANT, ctx.rng)
+        ctx.tally(f"objects:{c.get('objects', 'shared')}")
         c01.tally_case(ctx, c, summ)
         if "feasible_states" in summ:
             ctx.tally("feasible-states", summ["feasible_states"])
